@@ -66,9 +66,17 @@ def _array(node):
         return _scale(_array(node.left), _num(node.right))
     if isinstance(node, ast.Call) and isinstance(node.func, ast.Attribute) and \
             node.func.attr in ("array", "asarray") and len(node.args) == 1:
+        if ast.unparse(node.func) not in ("np.array", "np.asarray"):
+            raise TranslateError("table built by " + ast.unparse(node.func))
+        dt = None
         for kw in node.keywords:
             if kw.arg != "dtype":
                 raise TranslateError("unexpected keyword " + str(kw.arg))
+            dt = ast.unparse(kw.value)
+        # the model holds the exact rationals: only binary64 storage is within "up to
+        # rounding" of them (float32/float16 tables are 1e-8 / 1e-4 off)
+        if dt not in ("float", "np.float64", "np.double", "'float64'"):
+            raise TranslateError("table dtype is %s, model expects float (binary64)" % dt)
         return _nested(node.args[0])
     raise TranslateError("not an np.array literal: " + ast.dump(node)[:80])
 
@@ -187,6 +195,38 @@ def bounds_norm(fn):
                              "test: %r" % stores)
 
 
+def guard_rule(fn):
+    """the `x inside bounds` assertion of derivative, translated: the model refuses exactly
+    the x the code refuses.  Recognised: assert np.all(C1) and np.all(C2) [and ...] where each
+    Ci compares x with boundsTuple[k]; it must precede the first evaluation of f."""
+    found = None
+    for i, st in enumerate(fn.body):
+        if isinstance(st, ast.Assert) and _mentions(st.test, "x") and \
+                _mentions(st.test, "boundsTuple"):
+            if found is not None:
+                raise TranslateError("two assertions relate x and the bounds")
+            found = i
+    if found is None:
+        raise TranslateError("derivative does not assert that x is inside the bounds")
+    for st in fn.body[:found]:
+        for n in ast.walk(st):
+            if isinstance(n, ast.Call) and isinstance(n.func, ast.Name) and n.func.id == "f":
+                raise TranslateError("f is evaluated before x is checked against the bounds")
+            if isinstance(n, ast.Return):
+                raise TranslateError("derivative can return before x is checked against "
+                                     "the bounds")
+    t = fn.body[found].test
+    parts = t.values if isinstance(t, ast.BoolOp) and isinstance(t.op, ast.And) else [t]
+    out = []
+    for c in parts:
+        if not (isinstance(c, ast.Call) and ast.unparse(c.func) == "np.all" and
+                len(c.args) == 1 and not c.keywords):
+            raise TranslateError("bounds assertion: expected np.all(comparison), found "
+                                 + ast.unparse(c)[:80])
+        out.append("(%s)" % _cmp(c.args[0], {"x": "x"}))
+    return " && ".join(out)
+
+
 def offset_rule(fn):
     names = {"x": "x", "dxFloat": "dx"}
     body = fn.body
@@ -300,9 +340,21 @@ def derivative(f, x, n=1, order=4, bounds=None, epsilon=1e-16, scale=1.0, dx=Non
         boundsTuple = tuple(bounds)
     if args is None:
         args = []
+    assert (
+        isinstance(boundsTuple, tuple) and
+        len(boundsTuple) == 2 and
+        boundsTuple[1] > boundsTuple[0]
+    )
+    assert n in (0, 1, 2)
+    assert order in (2, 4)
+    assert np.all(x <= boundsTuple[1]) and np.all(
+        x >= boundsTuple[0]
+    )
     if n == 0:
         return f(x, *args)
     if dx is None:
+        assert isinstance(epsilon, float)
+        assert isinstance(scale, float)
         dxFloat = scale * epsilon ** (1 / (n + order))
     else:
         dxFloat = float(dx)
@@ -338,17 +390,27 @@ def gradient(f, x, order=4, epsilon=1e-16, scale=1.0, dx=None, axis=None, args=N
     else:
         axisList = list(axis)
     for i in axisList:
-        pass
+        assert (
+            -nbrVariables <= i < nbrVariables
+        )
+    assert order in (2,4)
     if dx is None:
+        assert isinstance(epsilon, float)
         if isinstance(scale, float):
             scale = scale * np.ones(nbrVariables)
         else:
             scale = np.asanyarray(scale)
+            assert (
+                scale.size == nbrVariables
+            )
         dxArray = scale * epsilon ** (1 / (1 + order))
     elif isinstance(dx, float):
         dxArray = dx * np.ones(nbrVariables)
     else:
         dxArray = np.asarray(dx)
+        assert (
+            dxArray.size == nbrVariables
+        )
     temp = x + dxArray
     dxArray = temp - x
     pos = np.expand_dims(x, (-3, -2)) + FIRST_DERIV_POS[str(order)][
@@ -376,7 +438,9 @@ def hessian(f, x, order=4, epsilon=1e-16, scale=1.0, dx=None, xAxis=None, yAxis=
     else:
         xAxisList = list(xAxis)
     for i in xAxisList:
-        pass
+        assert (
+            -nbrVariables <= i < nbrVariables
+        )
     if isinstance(yAxis, int):
         yAxisList = [yAxis]
     elif yAxis is None:
@@ -384,17 +448,27 @@ def hessian(f, x, order=4, epsilon=1e-16, scale=1.0, dx=None, xAxis=None, yAxis=
     else:
         yAxisList = list(yAxis)
     for i in yAxisList:
-        pass
+        assert (
+            -nbrVariables <= i < nbrVariables
+        )
+    assert order in (2, 4)
     if dx is None:
+        assert isinstance(epsilon, float)
         if isinstance(scale, float):
             scale = scale * np.ones(nbrVariables)
         else:
             scale = np.asanyarray(scale)
+            assert (
+                scale.size == nbrVariables
+            )
         dxArray = scale * epsilon ** (1 / (2 + order))
     elif isinstance(dx, float):
         dxArray = dx * np.ones(nbrVariables)
     else:
         dxArray = np.asarray(dx)
+        assert (
+            dxArray.size == nbrVariables
+        )
     temp = x + dxArray
     dxArray = temp - x
     pos = (
@@ -419,6 +493,8 @@ def hessian(f, x, order=4, epsilon=1e-16, scale=1.0, dx=None, xAxis=None, yAxis=
 # functions an assert may call (asserts are dropped from the pin, so they must be pure)
 _PURE = {"isinstance", "len", "np.all", "np.any", "float", "int", "hasattr", "np.isfinite",
          "np.shape", "np.ndim", "tuple", "list", "type", "self.areDerivativesConfigured"}
+import builtins as _b
+_BUILTINS = set(dir(_b))
 _UNTRACKED = {"np", "float", "int", "len", "str", "tuple", "list", "isinstance", "OFFSET_BLOCK"}
 
 
@@ -452,10 +528,19 @@ def _canon_body(body, tracked, top=False):
                 isinstance(st.value.value, str):
             continue
         if isinstance(st, ast.Assert):
+            # the asserts are part of the contract (x outside the bounds must be refused):
+            # kept in the canonical text, message dropped
             _check_assert(st)
+            out.append(ast.Assert(test=st.test, msg=None))
             continue
         if isinstance(st, ast.AnnAssign) and st.value is None:
             continue
+        if isinstance(st, ast.Expr) and not (isinstance(st.value, ast.Name)
+                                             and st.value.id == "OFFSET_BLOCK"):
+            # an expression statement can only matter through a side effect
+            # (np.seterr, a method call that mutates, ...)
+            raise TranslateError("expression statement %s inside a pinned function" %
+                                 ast.unparse(st)[:80])
         if isinstance(st, (ast.FunctionDef, ast.AsyncFunctionDef, ast.ClassDef, ast.Lambda,
                            ast.Global, ast.Nonlocal, ast.Import, ast.ImportFrom, ast.Delete,
                            ast.With, ast.Try, ast.While)):
@@ -500,6 +585,9 @@ def _canon_body(body, tracked, top=False):
 def _canon_fn(fn, tracked=None):
     """canonical text of a function for the structural pin"""
     for n in ast.walk(fn):
+        if isinstance(n, ast.Name) and isinstance(n.ctx, (ast.Store, ast.Del)) and (
+                n.id in _BUILTINS or n.id in ("np", "numpy")):
+            raise TranslateError("%s rebinds %s" % (fn.name, n.id))
         if isinstance(n, ast.NamedExpr):
             raise TranslateError("walrus in " + fn.name)
         if isinstance(n, ast.keyword) and n.arg == "out":
@@ -536,6 +624,10 @@ def pin_functions(tree):
             raise TranslateError("no function " + name)
         rsig, rtext, tracked = _canon_fn(rf)
         sig, text, _ = _canon_fn(fns[name], tracked)
+        # accepted variant: numpy integers count as an int axis (same model: one axis)
+        for nm in ("axis", "xAxis", "yAxis"):
+            text = text.replace("isinstance(%s, (int, np.integer))" % nm,
+                                "isinstance(%s, int)" % nm)
         if sig != rsig:
             raise TranslateError("signature/defaults of %s are %r, reference %r" %
                                  (name, sig, rsig))
@@ -570,6 +662,36 @@ def pin_functions(tree):
     if sorted(seen) != sorted(TABLES):
         raise TranslateError("tables assigned %r" % seen)
     return {name: dict(_canon_fn(fns[name])[0]) for name in ref}
+
+
+def _module_names(tree):
+    """helpers.py does not rebind a builtin or `np` at module level (float = np.float32 ...)
+    and binds np by `import numpy as np` only"""
+    nps = 0
+    for st in tree.body:
+        if isinstance(st, (ast.FunctionDef, ast.ClassDef)):
+            names = [st.name]
+        elif isinstance(st, (ast.Import, ast.ImportFrom)):
+            names = [(a.asname or a.name).split(".")[0] for a in st.names]
+            if any(a.name == "*" for a in st.names):
+                raise TranslateError("star import in helpers.py")
+            if isinstance(st, ast.Import) and any(a.name == "numpy" and a.asname == "np"
+                                                  for a in st.names):
+                nps += 1
+                names = [n for n in names if n != "np"]
+        else:
+            names = [n.id for n in ast.walk(st) if isinstance(n, ast.Name)
+                     and isinstance(n.ctx, (ast.Store, ast.Del))]
+            for n in ast.walk(st):
+                if isinstance(n, ast.Call) and ast.unparse(n.func) in (
+                        "setattr", "globals", "exec", "eval", "np.seterr", "vars", "locals"):
+                    raise TranslateError("module-level call of %s in helpers.py" %
+                                         ast.unparse(n.func))
+        for nm in names:
+            if nm in _BUILTINS or nm in ("np", "numpy"):
+                raise TranslateError("helpers.py rebinds %s at module level" % nm)
+    if nps != 1:
+        raise TranslateError("helpers.py does not bind np by exactly one `import numpy as np`")
 
 
 def _table_row(node, table):
@@ -624,10 +746,12 @@ def generate(src_text):
         raise TranslateError("no function derivative")
     bounds_norm(fns["derivative"])
     rule, _ = offset_rule(fns["derivative"])
+    guard = guard_rule(fns["derivative"])
     defaults = pin_functions(tree)
+    _module_names(tree)
     grow, hrows = grad_hess_rows(tree)
     out = ["(* generated from src/WallGo/helpers.py -- do not edit *)",
-           "From Coq Require Import List ZArith QArith.",
+           "From Coq Require Import List ZArith QArith Bool.",
            "From WG Require Import Lib.Stencil.",
            "Import ListNotations.", "Local Open Scope Q_scope.", ""]
     for (name, o), v in sorted(tb.items()):
@@ -636,6 +760,8 @@ def generate(src_text):
     out.append("")
     out.append("Definition offset (order : Z) (x dx : Q) (lb ub : bound) : Z :=\n    "
                + rule + ".")
+    out.append("(* the assertion `x inside bounds` of derivative: true = accepted *)")
+    out.append("Definition guard (x : Q) (lb ub : bound) : bool :=\n    (%s)%%bool." % guard)
     out.append("Definition gradient_row : nat := %d." % grow)
     out.append("Definition hessian_xrow : nat := %d." % hrows[0])
     out.append("Definition hessian_yrow : nat := %d." % hrows[1])
@@ -717,7 +843,7 @@ _COMB = "self.__combineInputs(fields, temperature)"
 _EPS = "self.effectivePotentialError"
 
 
-def _method_body(m):
+def _method_body(m, configured_guard=False):
     if m.decorator_list:
         raise TranslateError("decorator on EffectivePotential." + m.name)
     tracked = {n.id for n in ast.walk(m) if isinstance(n, ast.Name)} | \
@@ -725,7 +851,22 @@ def _method_body(m):
     for n in ast.walk(m):
         if isinstance(n, (ast.NamedExpr, ast.Global, ast.Nonlocal)):
             raise TranslateError("unsupported construct in " + m.name)
-    return _canon_body(m.body, tracked - {"np"} | {"self"})
+    a = m.args
+    if a.vararg or a.kwarg or a.kwonlyargs or a.posonlyargs or a.defaults:
+        raise TranslateError("signature of EffectivePotential." + m.name)
+    body = _canon_body(m.body, tracked - {"np"} | {"self"})
+    if configured_guard:
+        # the entry points refuse to run before configureDerivatives (first statement)
+        if [x.arg for x in a.args] != ["self", "fields", "temperature"]:
+            raise TranslateError("signature of EffectivePotential." + m.name)
+        if not body or ast.unparse(body[0]) != "assert self.areDerivativesConfigured()":
+            raise TranslateError("%s does not start with `assert "
+                                 "self.areDerivativesConfigured()`" % m.name)
+        body = body[1:]
+    if any(isinstance(n, ast.Assert) for st in body for n in ast.walk(st)) and \
+            m.name != "configureDerivatives":
+        raise TranslateError("unexpected assert in " + m.name)
+    return body
 
 
 def _helper_call(node, fname, allowed, what):
@@ -792,12 +933,65 @@ def potential_facts(pot_src, helpers_src):
     if len(cls) != 1:
         raise TranslateError("class EffectivePotential not found")
     cls = cls[0]
+    # --- nothing in the module can replace a method after (or while) the class is built:
+    # module level = docstring, imports, the settings dataclass and the class, nothing else
+    for st in tree.body:
+        if isinstance(st, (ast.Import, ast.ImportFrom)):
+            if any(a.name == "*" for a in st.names):
+                raise TranslateError("star import in effectivePotential.py")
+            continue
+        if isinstance(st, ast.Expr) and isinstance(st.value, ast.Constant) and \
+                isinstance(st.value.value, str):
+            continue
+        if st is cls:
+            continue
+        if isinstance(st, ast.ClassDef) and st.name == "VeffDerivativeSettings" and \
+                not st.bases and not st.keywords and \
+                [ast.unparse(d) for d in st.decorator_list] == ["dataclass"] and all(
+                    (isinstance(b, ast.AnnAssign) and b.value is None) or
+                    (isinstance(b, ast.Expr) and isinstance(b.value, ast.Constant))
+                    for b in st.body):
+            continue
+        raise TranslateError(
+            "module-level statement in effectivePotential.py besides imports, "
+            "VeffDerivativeSettings and EffectivePotential (it could rebind a method): %s"
+            % ast.unparse(st)[:100])
+    if [ast.unparse(b) for b in cls.bases] != ["ABC"] or cls.keywords or cls.decorator_list:
+        raise TranslateError("EffectivePotential is not a plain `class ...(ABC)`")
+    allowed = {"evaluate", "__init_subclass__", "configureDerivatives",
+               "areDerivativesConfigured", "getInherentRelativeError", "findLocalMinimum",
+               "__wrapperPotential", "__combineInputs", "derivT", "derivField",
+               "deriv2FieldT", "deriv2Field2", "allSecondDerivatives"}
     meth = {}
     for m in cls.body:
         if isinstance(m, ast.FunctionDef):
             if m.name in meth:
                 raise TranslateError("method %s defined twice" % m.name)
+            if m.name not in allowed:
+                raise TranslateError("EffectivePotential defines %s (a hook such as "
+                                     "__getattribute__ could intercept the pinned methods)"
+                                     % m.name)
             meth[m.name] = m
+        elif isinstance(m, ast.AnnAssign) and m.value is None:
+            continue
+        elif isinstance(m, ast.Expr) and isinstance(m.value, ast.Constant) and \
+                isinstance(m.value.value, str):
+            continue
+        else:
+            raise TranslateError("class-body statement in EffectivePotential that is not a "
+                                 "def or a bare annotation (it could rebind a method): %s"
+                                 % ast.unparse(m)[:100])
+    for k, want in (("areDerivativesConfigured",
+                     ["return hasattr(self, 'derivativeSettings')"]),
+                    ("getInherentRelativeError", ["return self.effectivePotentialError"])):
+        if k not in meth or [ast.unparse(x) for x in _method_body(meth[k])] != want:
+            raise TranslateError("EffectivePotential.%s is not %r" % (k, want))
+    if "__init_subclass__" in meth:
+        for n in ast.walk(meth["__init_subclass__"]):
+            if isinstance(n, ast.Call) and ast.unparse(n.func) in ("setattr", "type.__setattr__") \
+                    or isinstance(n, (ast.Attribute, ast.Subscript)) and \
+                    isinstance(n.ctx, (ast.Store, ast.Del)):
+                raise TranslateError("__init_subclass__ modifies the class")
     # --- object state: only configureDerivatives writes attributes of self ------------
     for m in meth.values():
         for n in ast.walk(m):
@@ -817,6 +1011,17 @@ def potential_facts(pot_src, helpers_src):
                         "EffectivePotential.%s stores %s: the model has no state besides "
                         "the derivative settings written by configureDerivatives" %
                         (m.name, ast.unparse(n)))
+    pinned = {"derivT", "derivField", "deriv2FieldT", "deriv2Field2", "allSecondDerivatives",
+              "__wrapperPotential", "__combineInputs", "configureDerivatives",
+              "_EffectivePotential__wrapperPotential", "_EffectivePotential__combineInputs"}
+    for n in ast.walk(tree):
+        if isinstance(n, ast.Constant) and isinstance(n.value, str) and n.value in pinned:
+            raise TranslateError("the name of a pinned method appears as a string (%r): "
+                                 "possible indirect rebinding" % n.value)
+        if isinstance(n, ast.Call) and ast.unparse(n.func) in (
+                "setattr", "delattr", "type.__setattr__", "object.__setattr__", "globals",
+                "exec", "eval"):
+            raise TranslateError("effectivePotential.py calls %s" % ast.unparse(n.func))
     need = ["configureDerivatives", "__wrapperPotential", "__combineInputs", "derivT",
             "derivField", "deriv2FieldT", "deriv2Field2", "allSecondDerivatives"]
     for k in need:
@@ -847,7 +1052,8 @@ def potential_facts(pot_src, helpers_src):
         "settings.fieldValueVariationScale * np.ones(self.fieldCount)\n"
         "else:\n"
         "    self.derivativeSettings.fieldValueVariationScale = "
-        "np.asanyarray(settings.fieldValueVariationScale)"]
+        "np.asanyarray(settings.fieldValueVariationScale)\n"
+        "    assert self.derivativeSettings.fieldValueVariationScale.size == self.fieldCount"]
     got_cd = [ast.unparse(ast.fix_missing_locations(s)) for s in cd[:-1]]
     # optional, value-preserving: the temperature scale is coerced to a python float
     # (helpers.derivative asserts isinstance(scale, float)); it stays the T scale
@@ -888,7 +1094,7 @@ def potential_facts(pot_src, helpers_src):
     facts["wrapper_fields"] = _ellipsis_sub(a0.value.args[0], "X", 1)[0]
     facts["wrapper_T"] = _ellipsis_sub(a1.value, "X", 1)[0]
     # --- derivT ------------------------------------------------------------------------
-    b = _method_body(meth["derivT"])
+    b = _method_body(meth["derivT"], configured_guard=True)
     if len(b) == 2 and isinstance(b[0], ast.Assign) and len(b[0].targets) == 1 and \
             isinstance(b[0].targets[0], ast.Name) and isinstance(b[1], ast.Return) and \
             ast.unparse(b[1].value) == b[0].targets[0].id:
@@ -926,14 +1132,14 @@ def potential_facts(pot_src, helpers_src):
         return "(%d)%%Z" % (_intlit(kws["order"]) if "order" in kws else
                             _int_default(hdef[fname], "order", fname))
     # --- derivField ----------------------------------------------------------------------
-    b = _method_body(meth["derivField"])
+    b = _method_body(meth["derivField"], configured_guard=True)
     if len(b) != 1 or not isinstance(b[0], ast.Return):
         raise TranslateError("derivField is not `return gradient(...)`")
     kws = _std_call(b[0].value, "gradient", "derivField", ["axis"])
     facts["derivField_axis"] = _axes(kws.get("axis"), {})
     facts["derivField_order"] = order_of(kws, "gradient")
     # --- deriv2FieldT ----------------------------------------------------------------------
-    b = _method_body(meth["deriv2FieldT"])
+    b = _method_body(meth["deriv2FieldT"], configured_guard=True)
     if not (len(b) == 2 and isinstance(b[0], ast.Assign) and
             ast.unparse(b[0].targets[0]) == "res" and ast.unparse(b[1]) == "return res" and
             isinstance(b[0].value, ast.Subscript)):
@@ -948,7 +1154,7 @@ def potential_facts(pot_src, helpers_src):
     facts["deriv2FieldT_y"] = _axes(kws.get("yAxis"), {})
     facts["deriv2FieldT_order"] = order_of(kws, "hessian")
     # --- deriv2Field2 ----------------------------------------------------------------------
-    b = _method_body(meth["deriv2Field2"])
+    b = _method_body(meth["deriv2Field2"], configured_guard=True)
     env = {}
     for st in b[:-1]:
         if not (isinstance(st, ast.Assign) and len(st.targets) == 1 and
@@ -962,7 +1168,7 @@ def potential_facts(pot_src, helpers_src):
     facts["deriv2Field2_y"] = _axes(kws.get("yAxis"), env)
     facts["deriv2Field2_order"] = order_of(kws, "hessian")
     # --- allSecondDerivatives ------------------------------------------------------------------
-    b = _method_body(meth["allSecondDerivatives"])
+    b = _method_body(meth["allSecondDerivatives"], configured_guard=True)
     if not (len(b) == 5 and isinstance(b[0], ast.Assign) and
             ast.unparse(b[0].targets[0]) == "res" and
             ast.unparse(b[4]) == "return (hess, dgraddT, d2VdT2)"):
